@@ -69,6 +69,11 @@ CLAIMED.update({
          "All 113 distinct sessions of the matrix run in both tiers: library exporter (TLS x server max version 1.1/1.2/1.3, DTLS) against a harness-controlled server with each of 7 server certificates x 3 ServerName settings; harness TLS client with each of 4 client certificates x 3 max versions against the library collector with and without client CA; plaintext peers against encrypted endpoints and encrypted exporters against plaintext collectors. A predicate written from the statement decides each cell; refused cells must fail InitExportingProcess / deliver nothing, accepted ones must deliver through a session of version >= 1.2. Only the listed certificate faults; no cryptographic analysis.",
          "trusted: Go crypto/tls and pion/dtls as harness-side peers; in-process ECDSA certificates; a sentinel from a well-behaved peer proves the collector had processed the cell's connection", "DESIGN.md section 3 C18"),
 })
+CLAIMED.update({
+ "C01": ("property-based testing: rapid-generated exporter->collector sessions over real loopback sockets on all four transports and both address families; round-trip oracle on the generated template and values, sentinel-based delivery (no timeouts as correctness signals); boundary preamble every run",
+         "A boundary preamble (every transport x IPv4/IPv6 x variable lengths 0/1/254/255/256 and a message filled to exactly the transport's maximum) and thousands (quick) to >100k (thorough) generated sessions with templates of 1..40 elements from the whole registry and boundary-biased values: the collector must deliver the same observation domain, template fields (id, enterprise, type, length, name) in order, record count and bit-identical values. Sampled; value-space coverage comes from C15. DTLS messages above 8000 bytes are the open finding D10 (excluded, counted, probed every run).",
+         "trusted: loopback ordering; a UDP datagram loss makes a case inconclusive; in-process certificates", "DESIGN.md section 3 C01"),
+})
 HOOK_COMMITS = ["bde829d", "7b897fc", "836c091"]
 
 checks = []
